@@ -16,15 +16,27 @@ def typePriorityIn (table : List (Str × Nat)) (t : Str) : Nat := (dget table t)
 
 def typePriority (t : Str) : Nat := typePriorityIn Tables.pythonTypesSorted t
 
-/-- `ConverterFactory.sort_types(types)` for an arbitrary priority function -/
-def sortTypesBy (prio : Str → Nat) (types : List Str) : List Str :=
-  if types.length < 2 then types else pySortedByNat prio types
+/-- the sort key of `sort_types`, `(__PYTHON_TYPES_SORTED__.get(tp, 0), tp is object)`,
+as one number (the pair order is the order of `2 * priority + flag`): among the
+types without table entry `object`, the catch-all, comes last -/
+def typeKey (t : Str) : Nat :=
+  2 * typePriority t + (if t = ['o', 'b', 'j', 'e', 'c', 't'] then 1 else 0)
+
+/-- `ConverterFactory.sort_types(types)` for an arbitrary key function -/
+def sortTypesBy (key : Str → Nat) (types : List Str) : List Str :=
+  if types.length < 2 then types else pySortedByNat key types
 
 /-- `ConverterFactory.sort_types(types)` -/
-def sortTypes (types : List Str) : List Str := sortTypesBy typePriority types
+def sortTypes (types : List Str) : List Str := sortTypesBy typeKey types
 
-/-- the python types the XSD builtins map to that share their priority with another one -/
-def priorityTies (names : List Str) : List (Str × Str) :=
-  names.flatMap (fun a => (names.filter (fun b => a != b && typePriority a == typePriority b)).map (fun b => (a, b)))
+/-- pairs of different names with equal value under `f` -/
+def tiesBy (f : Str → Nat) (names : List Str) : List (Str × Str) :=
+  names.flatMap (fun a => (names.filter (fun b => a != b && f a == f b)).map (fun b => (a, b)))
+
+/-- the python types the XSD builtins map to that share their *table priority* with another one -/
+def priorityTies (names : List Str) : List (Str × Str) := tiesBy typePriority names
+
+/-- … and those that share their *sort key* -/
+def keyTies (names : List Str) : List (Str × Str) := tiesBy typeKey names
 
 end Xs.Codegen
